@@ -11,6 +11,7 @@ import (
 
 	"github.com/jotaen/klog/klog"
 	"github.com/jotaen/klog/klog/app/cli"
+	"github.com/jotaen/klog/klog/service"
 	cliutil "github.com/jotaen/klog/klog/app/cli/util"
 
 	"klogverif/clidrv"
@@ -431,11 +432,38 @@ func c20Text(c *fw.Ctx, fam string, idx int, text string, viaCLI bool) {
 		}
 		vs = append(vs, variant{"--date " + d.ToString(), &cli.Json{FilterArgs: cliutil.FilterArgs{Date: d}, InputFilesArgs: in}, []string{"--date", d.ToString()}, w, false})
 	}
-	if ref.Verdict == sm.Valid && len(ref.Records) == len(rs) && strings.Contains(text, "#a") {
-		// a tag filter: the selection is C13's subject, here the selected records must be rendered faithfully
-		if kt, err := klog.NewTagFromString("a"); err == nil {
-			sel := c13Apply(ref.Records, []c13Clause{{kind: "tag", recTags: []sm.Tag{{Name: "a"}}}})
-			vs = append(vs, variant{"--tag a", &cli.Json{FilterArgs: cliutil.FilterArgs{Tags: []klog.Tag{kt}}, InputFilesArgs: in}, []string{"--tag", "a"}, expectFromRef(sel), false})
+	if ref.Verdict == sm.Valid && len(ref.Records) == len(rs) {
+		// a tag filter: the selection is C13's subject, here the selected records must be rendered faithfully.
+		// Queried: the first tag that occurs in an entry summary (entry-level reduction), else in a record summary.
+		name := ""
+		for _, r := range ref.Records {
+			for _, e := range r.Entries {
+				if ts := sm.ScanSummaryTags(e.Summary); name == "" && len(ts) > 0 {
+					name = ts[0].Name
+				}
+			}
+		}
+		for _, r := range ref.Records {
+			if ts := sm.ScanSummaryTags(r.Summary); name == "" && len(ts) > 0 {
+				name = ts[0].Name
+			}
+		}
+		if kt, err := klog.NewTagFromString(name); name != "" && err == nil {
+			sel := c13Apply(ref.Records, []c13Clause{{kind: "tag", recTags: []sm.Tag{{Name: name}}}})
+			vs = append(vs, variant{"--tag " + name, &cli.Json{FilterArgs: cliutil.FilterArgs{Tags: []klog.Tag{kt}}, InputFilesArgs: in}, []string{"--tag", name}, expectFromRef(sel), false})
+		}
+	}
+	if ref.Verdict == sm.Valid && len(ref.Records) == len(rs) {
+		// entry-type filters: the records that remain (with their should-totals, summaries, reduced entries and
+		// re-computed totals) must be rendered as faithfully as unfiltered ones
+		for _, tc := range []struct {
+			name string
+			et   service.EntryType
+			kind sm.EntryKind
+		}{{"range", service.ENTRY_TYPE_RANGE, sm.KRange}, {"duration", service.ENTRY_TYPE_DURATION, sm.KDuration}, {"open-range", service.ENTRY_TYPE_OPEN_RANGE, sm.KOpenRange}} {
+			kind := tc.kind
+			sel := c13Apply(ref.Records, []c13Clause{{kind: "type", entryOK: func(_ sm.Record, e sm.Entry) bool { return e.Kind == kind }}})
+			vs = append(vs, variant{"--entry-type " + tc.name, &cli.Json{FilterArgs: cliutil.FilterArgs{EntryType: tc.et}, InputFilesArgs: in}, []string{"--entry-type", tc.name}, expectFromRef(sel), false})
 		}
 	}
 	for _, v := range vs {
